@@ -307,25 +307,28 @@ def run(ctx):
             broken += check_stream(ctx, "exhs_%d" % sh, os.path.join(ctx.work, "exh_%d.ops" % sh),
                                    os.path.join(ctx.work, "exh_%d.impl" % sh))
         if ctx.thorough():
-            # sequentially exhaustive depth 5 over the 13-operation alphabet (371 293 histories, all of them)
-            jobs = [(binp, "TestVerifE4Exhaustive", {"VERIF_LEN": 5, "VERIF_SHARD": s, "VERIF_NSHARD": nsh,
-                                                      "VERIF_ALPHA": "tiny"}, 2400) for s in range(nsh)]
+            # depth 5 over the 13-operation alphabet (371 293 histories): round 10 budget - HALF of them per run (8 of 16
+            # shards, rotating with the seed: two seeds of different parity cover all of them); the whole set took ~3.5 min
+            # of a 754 s thorough run on a loaded box (target <= 8 min)
+            jobs = [(binp, "TestVerifE4Exhaustive", {"VERIF_LEN": 5, "VERIF_SHARD": (2 * s + ctx.seed) % (2 * nsh),
+                                                      "VERIF_NSHARD": 2 * nsh, "VERIF_ALPHA": "tiny"}, 2400) for s in range(nsh)]
             res = e4.run_parallel(ctx, jobs, workers=nsh)
             for s, (rc, out) in enumerate(res):
+                sh = (2 * s + ctx.seed) % (2 * nsh)
                 if rc != 0:
-                    ctx.log("exhaustive(tiny,5) shard %d failed:\n%s" % (s, out[-1500:]))
-                    broken.append("exhaustive(tiny,5) harness shard %d exit %s" % (s, rc))
+                    ctx.log("exhaustive(tiny,5) shard %d failed:\n%s" % (sh, out[-1500:]))
+                    broken.append("exhaustive(tiny,5) harness shard %d exit %s" % (sh, rc))
                     continue
                 if s == 0:
                     e4.hist_lines(ctx, out, "exhaustive_tiny_len5")
-                broken += check_stream(ctx, "exh5_%d" % s, os.path.join(ctx.work, "exh_%d.ops" % s),
-                                       os.path.join(ctx.work, "exh_%d.impl" % s))
-            # full alphabet, length 4: a 1/32 strided sample of the 5.3 million histories
-            jobs = [(binp, "TestVerifE4Exhaustive", {"VERIF_LEN": 4, "VERIF_SHARD": (s * 32 + ctx.seed) % 256,
-                                                      "VERIF_NSHARD": 256, "VERIF_ALPHA": "full"}, 1500) for s in range(nsh)]
+                broken += check_stream(ctx, "exh5_%d" % sh, os.path.join(ctx.work, "exh_%d.ops" % sh),
+                                       os.path.join(ctx.work, "exh_%d.impl" % sh))
+            # full alphabet, length 4: a 1/64 strided sample of the 5.3 million histories (1/32 before round 10)
+            jobs = [(binp, "TestVerifE4Exhaustive", {"VERIF_LEN": 4, "VERIF_SHARD": (s * 64 + ctx.seed) % 512,
+                                                      "VERIF_NSHARD": 512, "VERIF_ALPHA": "full"}, 1500) for s in range(nsh)]
             res = e4.run_parallel(ctx, jobs, workers=nsh)
             for s, (rc, out) in enumerate(res):
-                sh = (s * 32 + ctx.seed) % 256
+                sh = (s * 64 + ctx.seed) % 512
                 if rc != 0:
                     ctx.log("exhaustive(full,4) shard %d failed:\n%s" % (sh, out[-1500:]))
                     broken.append("exhaustive(full,4) harness shard %d exit %s" % (sh, rc))
